@@ -66,6 +66,16 @@ CHECKS = {
          "DESIGN.md §4 C19",
          "The repository's own machine and poller threads and a harness session thread run under a baton-passing scheduler that owns every lock/atomic/channel/sleep point of the emulated-machine debug adapter. For every script over setBreakpoints/configurationDone/wait/pause/continue/next/stepIn/stepOut up to the length bound, on a straight-line, a loop and a subroutine program, all schedules with at most 1 (quick) / 2-3 (thorough) preemptions are executed; in each the reported stop address and registers are compared with the CPU, the machine must stay halted after a reported stop, breakpoints must not be skipped and steps must follow the uninterrupted instruction sequence.",
          "Sequentially consistent interleavings at the hooked points; the harness calls the adapter methods the DAP handlers call (no TCP); recorded schedules are replayed and must reproduce the observations, a divergence is a machinery error."),
+ "C17": ("exploration",
+         "deviation-bounded exhaustive enumeration of buffers (trivia, whitespace, CRLF, non-ASCII deviations) with an edit-application oracle against the real formatter, on the real server",
+         "DESIGN.md §4 C17",
+         "Every base program with one comment / whitespace deviation per trivia slot, CRLF and non-ASCII (1-, 1- and 2-UTF-16-unit characters at start/middle/end of strings and comments) variants, tiny buffers, the example sources and the formatter's own output are opened in a fresh real server; the edits returned by formatting and on-type formatting must be in range, ordered, non-overlapping and, applied with standard LSP (UTF-16, CRLF-aware) semantics, reproduce the in-process formatter exactly (cross-checked against `mos format`).",
+         "Own LSP text model (self-checked at start-up); only answers that contain edits are judged, as the statement says."),
+ "C18": ("exploration",
+         "bounded-exhaustive enumeration of test bodies x assertion placements against a reference 6502 interpreter, in-process test runner and real `mos test`",
+         "DESIGN.md §4 C18",
+         "All bodies of up to 2 (quick) / 3 (thorough) instructions from a 14-instruction alphabet in a straight-line, a loop and a subroutine frame, with one assertion of 8 kinds at every gap whose compared value is the reference interpreter's value at the first or second dynamic visit (or that value + 1), plus two-bank isolation programs, are run through the real TestRunner and a stratified subset through `mos test`; verdict, failing location, message and exit status are compared with the reference.",
+         "Reference interpreter for the documented binary-mode subset is trusted (checked to be independent of the initial machine state); one assertion per test."),
 }
 
 NOT_YET = {
